@@ -30,7 +30,8 @@ Definition mk_int (z : Z) : res val := if in_int z then Def (VI z) else Undef.  
 Definition mk_uint (z : Z) : res val := Def (VU (z mod UINT_MOD)).                   (* unsigned arithmetic wraps *)
 
 (* ---- the world ---- *)
-Record object := { o_b : bool; o_i : Z; o_u : Z; o_s : list N; o_next : option nat }.
+Record object := { o_b : bool; o_i : Z; o_u : Z; o_s : list N; o_next : option nat;
+                   o_m1 : Z; o_m2 : Z (* two int properties announced by one notify signal *) }.
 Inductive effect :=
 | ESet (o : nat) (p : string) (v : val)        (* a property write through the setter *)
 | ECallM (o : nat) (m : string) (args : list val)
@@ -41,12 +42,13 @@ Definition get_obj (st : state) (o : nat) : res object := match nth_error (objs 
 Definition read_prop (st : state) (o : nat) (p : string) : res val :=
   let? x := get_obj st o in
   if String.eqb p "b" then Def (VB (o_b x)) else if String.eqb p "i" then Def (VI (o_i x)) else if String.eqb p "u" then Def (VU (o_u x))
-  else if String.eqb p "s" then Def (VS (o_s x)) else if String.eqb p "next" then Def (VP (o_next x)) else Stuck "property".
+  else if String.eqb p "s" then Def (VS (o_s x)) else if String.eqb p "next" then Def (VP (o_next x))
+  else if String.eqb p "m1" then Def (VI (o_m1 x)) else if String.eqb p "m2" then Def (VI (o_m2 x)) else Stuck "property".
 Fixpoint set_nth {A} (l : list A) (n : nat) (x : A) : list A :=
   match l, n with [], _ => [] | _ :: r, O => x :: r | y :: r, S k => y :: set_nth r k x end.
 Definition coerce (target : string) (v : val) : res val :=      (* a literal meets the concrete type of a property / variable *)
   match v with
-  | VL z => if String.eqb target "i" then (if in_int z then Def (VI z) else Stuck "literal out of int range")
+  | VL z => if String.eqb target "i" || String.eqb target "m1" || String.eqb target "m2" then (if in_int z then Def (VI z) else Stuck "literal out of int range")
             else if String.eqb target "u" then (if (0 <=? z) && (z <? UINT_MOD) then Def (VU z) else Stuck "literal out of uint range")
             else Stuck "literal for a non-integer target"
   | VNull => if String.eqb target "next" then Def (VP None) else Stuck "null for a non-pointer target"
@@ -56,11 +58,14 @@ Definition write_prop (st : state) (o : nat) (p : string) (v : val) : res state 
   let? x := get_obj st o in
   let? v := coerce p v in
   let? x' := match v with
-             | VB b => if String.eqb p "b" then Def {| o_b := b; o_i := o_i x; o_u := o_u x; o_s := o_s x; o_next := o_next x |} else Stuck "type"
-             | VI z => if String.eqb p "i" then Def {| o_b := o_b x; o_i := z; o_u := o_u x; o_s := o_s x; o_next := o_next x |} else Stuck "type"
-             | VU z => if String.eqb p "u" then Def {| o_b := o_b x; o_i := o_i x; o_u := z; o_s := o_s x; o_next := o_next x |} else Stuck "type"
-             | VS s => if String.eqb p "s" then Def {| o_b := o_b x; o_i := o_i x; o_u := o_u x; o_s := s; o_next := o_next x |} else Stuck "type"
-             | VP q => if String.eqb p "next" then Def {| o_b := o_b x; o_i := o_i x; o_u := o_u x; o_s := o_s x; o_next := q |} else Stuck "type"
+             | VB b => if String.eqb p "b" then Def {| o_b := b; o_i := o_i x; o_u := o_u x; o_s := o_s x; o_next := o_next x; o_m1 := o_m1 x; o_m2 := o_m2 x |} else Stuck "type"
+             | VI z => if String.eqb p "i" then Def {| o_b := o_b x; o_i := z; o_u := o_u x; o_s := o_s x; o_next := o_next x; o_m1 := o_m1 x; o_m2 := o_m2 x |}
+                       else if String.eqb p "m1" then Def {| o_b := o_b x; o_i := o_i x; o_u := o_u x; o_s := o_s x; o_next := o_next x; o_m1 := z; o_m2 := o_m2 x |}
+                       else if String.eqb p "m2" then Def {| o_b := o_b x; o_i := o_i x; o_u := o_u x; o_s := o_s x; o_next := o_next x; o_m1 := o_m1 x; o_m2 := z |}
+                       else Stuck "type"
+             | VU z => if String.eqb p "u" then Def {| o_b := o_b x; o_i := o_i x; o_u := z; o_s := o_s x; o_next := o_next x; o_m1 := o_m1 x; o_m2 := o_m2 x |} else Stuck "type"
+             | VS s => if String.eqb p "s" then Def {| o_b := o_b x; o_i := o_i x; o_u := o_u x; o_s := s; o_next := o_next x; o_m1 := o_m1 x; o_m2 := o_m2 x |} else Stuck "type"
+             | VP q => if String.eqb p "next" then Def {| o_b := o_b x; o_i := o_i x; o_u := o_u x; o_s := o_s x; o_next := q; o_m1 := o_m1 x; o_m2 := o_m2 x |} else Stuck "type"
              | _ => Stuck "type"
              end in
   Def {| objs := set_nth (objs st) o x'; trace := ESet o p v :: trace st |}.
